@@ -14,25 +14,19 @@ theorem unmarshalKE_ne_fault (b : Bytes) : unmarshalKE b ≠ .fault := by
   unfold unmarshalKE
   split
   · simp
-  · split
-    · simp
-    · go_steps; simp
+  · go_steps; simp
 
 theorem unmarshalT4_ne_fault (mk : UInt8 → Bytes → Payload) (b : Bytes) : unmarshalT4 mk b ≠ .fault := by
   unfold unmarshalT4
   split
   · simp
-  · split
-    · simp
-    · go_steps; simp
+  · go_steps; simp
 
 theorem unmarshalT1_ne_fault (mk : UInt8 → Bytes → Payload) (b : Bytes) : unmarshalT1 mk b ≠ .fault := by
   unfold unmarshalT1
   split
   · simp
-  · split
-    · simp
-    · go_steps; simp
+  · go_steps; simp
 
 theorem unmarshalNotify_ne_fault (b : Bytes) : unmarshalNotify b ≠ .fault := by
   unfold unmarshalNotify
@@ -92,13 +86,11 @@ theorem unmarshalCP_ne_fault (b : Bytes) : unmarshalCP b ≠ .fault := by
   unfold unmarshalCP
   split
   · simp
-  · split
-    · simp
-    · go_steps
-      cases h : unmarshalCPAttrs (List.drop 4 b) with
-      | ok l => simp
-      | err => simp
-      | fault => exact absurd h (unmarshalCPAttrs_ne_fault _)
+  · go_steps
+    cases h : unmarshalCPAttrs (List.drop 4 b) with
+    | ok l => simp
+    | err => simp
+    | fault => exact absurd h (unmarshalCPAttrs_ne_fault _)
 
 /-! ### Traffic selectors -/
 
@@ -749,49 +741,37 @@ theorem unmarshalPayload_sk (t nx : UInt8) (body : Bytes) (n : UInt8) (d : Bytes
   · rw [if_pos h2] at h; unfold unmarshalKE at h
     split at h
     · simp at h
-    · split at h
-      · simp at h
-      · revert h; go_steps; simp
+    · revert h; go_steps; simp
   rw [if_neg h2] at h
   by_cases h3 : (t == Facts.typeIDi) = true
   · rw [if_pos h3] at h; unfold unmarshalT4 at h
     split at h
     · simp at h
-    · split at h
-      · simp at h
-      · revert h; go_steps; simp
+    · revert h; go_steps; simp
   rw [if_neg h3] at h
   by_cases h4 : (t == Facts.typeIDr) = true
   · rw [if_pos h4] at h; unfold unmarshalT4 at h
     split at h
     · simp at h
-    · split at h
-      · simp at h
-      · revert h; go_steps; simp
+    · revert h; go_steps; simp
   rw [if_neg h4] at h
   by_cases h5 : (t == Facts.typeCERT) = true
   · rw [if_pos h5] at h; unfold unmarshalT1 at h
     split at h
     · simp at h
-    · split at h
-      · simp at h
-      · revert h; go_steps; simp
+    · revert h; go_steps; simp
   rw [if_neg h5] at h
   by_cases h6 : (t == Facts.typeCERTreq) = true
   · rw [if_pos h6] at h; unfold unmarshalT1 at h
     split at h
     · simp at h
-    · split at h
-      · simp at h
-      · revert h; go_steps; simp
+    · revert h; go_steps; simp
   rw [if_neg h6] at h
   by_cases h7 : (t == Facts.typeAUTH) = true
   · rw [if_pos h7] at h; unfold unmarshalT4 at h
     split at h
     · simp at h
-    · split at h
-      · simp at h
-      · revert h; go_steps; simp
+    · revert h; go_steps; simp
   rw [if_neg h7] at h
   by_cases h8 : (t == Facts.typeNiNr) = true
   · rw [if_pos h8] at h; simp at h
@@ -846,10 +826,8 @@ theorem unmarshalPayload_sk (t nx : UInt8) (body : Bytes) (n : UInt8) (d : Bytes
   · rw [if_pos h15] at h; unfold unmarshalCP at h
     split at h
     · simp at h
-    · split at h
-      · simp at h
-      · revert h; go_steps
-        cases hh : unmarshalCPAttrs _ <;> simp
+    · revert h; go_steps
+      cases hh : unmarshalCPAttrs _ <;> simp
   rw [if_neg h15] at h
   by_cases h16 : (t == Facts.typeEAP) = true
   · rw [if_pos h16] at h
